@@ -1,6 +1,7 @@
 """C04 — generic-interaction sampler: loop update, exit-leg heat bath, gate, offsets, pipeline."""
-LEAN_TARGETS = ["QmcProps.C04", "drv_c04", "QmcProps.C08", "drv_c08", "QmcProps.C02", "drv_c02"]
-BINS = ["c04", "c08", "c02"]
+from checks import full_step
+LEAN_TARGETS = ["drv_step", "QmcProofs.SamplerStep", "QmcProofs.SamplerCluster", "QmcProps.C04", "drv_c04", "QmcProps.C08", "drv_c08", "QmcProps.C02", "drv_c02"]
+BINS = ["fullstep", "c04", "c08", "c02"]
 
 # Theorems of other properties that C04's claim rests on: the generic sampler's timestep starts with the diagonal
 # update (C08: per-slot ratio, weight step, off-diagonal operators untouched, max-weight table) and, with
@@ -103,4 +104,5 @@ def main(ck):
     ck.notes.append("The kernel theorems and correspondence modes of C08 (diagonal update: slot ratio, weight step, off-diagonal "
                     "operators untouched, max-weight table) and C02 (heat-bath table validity and ratio) are re-audited / re-run here, "
                     "so that a change to the diagonal update (diagonal.rs / heatbath.rs) is reported against C04 as well.")
+    full_step.run(ck, modes=["generic"], audit=True)
     return ck.finish(RULE)
